@@ -44,10 +44,30 @@ type spec struct {
 	ords  [][]string // explicit iteration orders for the model (nil: all permutations)
 	class bool       // compare the cyclic diagnostic as a class only (graphs with many cycles and too many orders)
 	group string
+	flow  bool // the jobs mapping in flow style on ONE line: positions differ in the column only
 }
 
 func (s *spec) yaml() string {
 	var b strings.Builder
+	if s.flow {
+		b.WriteString("on: push\njobs: {")
+		for i, j := range s.jobs {
+			if i > 0 {
+				b.WriteString(", ")
+			}
+			b.WriteString(j.id + ": {")
+			if len(j.needs) > 0 {
+				qs := make([]string, len(j.needs))
+				for i, n := range j.needs {
+					qs[i] = strconv.Quote(n)
+				}
+				b.WriteString("needs: [" + strings.Join(qs, ", ") + "], ")
+			}
+			b.WriteString("runs-on: x, steps: [{run: echo}]}")
+		}
+		b.WriteString("}\n")
+		return b.String()
+	}
 	b.WriteString("on: push\njobs:\n")
 	for _, j := range s.jobs {
 		b.WriteString("  " + j.id + ":\n")
@@ -180,9 +200,9 @@ func runRule(w *actionlint.Workflow) (ds []pdiag, err error) {
 
 // observable of one run: sorted list of number tuples
 func observable(jobs []ajob, ds []pdiag, class bool) [][]int {
-	lineOf := map[string]int{}
+	lineOf := map[string]int{} // position of the job as one number (jobs of a flow mapping share the line)
 	for _, j := range jobs {
-		lineOf[strings.ToLower(j.ID)] = j.Line
+		lineOf[strings.ToLower(j.ID)] = j.Line*1000000 + j.Col
 	}
 	var out [][]int
 	for _, d := range ds {
@@ -731,7 +751,7 @@ func bigSpec(r *hx.Rng) *spec {
 				}
 			}
 		}
-		sp.class = true
+		// (the cyclic diagnostic is compared exactly: the model sorts the start nodes like the implementation)
 	}
 	if r.Chance(1, 6) { // dangling and duplicate references
 		i := r.Intn(n)
@@ -803,7 +823,7 @@ func main() {
 	hx.Must(os.MkdirAll(*out, 0o755))
 	thorough := *tier == "thorough"
 	sum := hx.NewSummary("C18")
-	sum.Rule = "needs graphs: every edge set (self loops included) over 1-4 jobs in ascending and descending order of the needs entries, references in both spellings; 3 jobs with every needs list up to a length bound over {a, A, b, c, x (dangling), empty}; 5-job graphs (random edge sets of random density; thorough: half of them a bijective stride through all 2^25 edge sets); 4- and 5-job graphs with the needs entries in random order; random graphs of 6-40 jobs (DAG, one embedded simple cycle, dense) with dangling/duplicate/case-variant references. non-trivial = the rule reports a missing reference or a cycle; distinct = distinct workflow text"
+	sum.Rule = "needs graphs: every edge set (self loops included) over 1-4 jobs in ascending and descending order of the needs entries, references in both spellings; 3 jobs with every needs list up to a length bound over {a, A, b, c, x (dangling), empty}; 5-job graphs (random edge sets of random density; thorough: half of them a bijective stride through all 2^25 edge sets); 4- and 5-job graphs with the needs entries in random order; 3-5 jobs written as ONE flow-style line (positions differ in the column only; more repetitions); random graphs of 6-40 jobs (DAG, one embedded simple cycle, dense) with dangling/duplicate/case-variant references. non-trivial = the rule reports a missing reference or a cycle; distinct = distinct workflow text"
 	hangReport = func(src string) {
 		sum.OracleFails = append(sum.OracleFails, failure{What: "the rule does not terminate on this input within 20 s", Key: "hang:" + src, Workflow: src})
 		sum.Write(filepath.Join(*out, "summary.json"))
@@ -981,6 +1001,37 @@ func main() {
 		shuf = append(shuf, graphShuffled(r, n, mask, "shuffled-needs"))
 	}
 	process(shuf, reps, 1499)
+
+	// (d'') flow-style jobs mapping: every job on the same line, so the position order that
+	// decides where the cycle search starts is decided by the COLUMN
+	var flow []*spec
+	for n := 2; n <= 3; n++ {
+		for mask := uint64(0); mask < 1<<uint(n*n); mask++ {
+			sp := graphOf(n, mask, mask%2 == 1, "flow-style")
+			sp.flow = true
+			flow = append(flow, sp)
+		}
+	}
+	process(flow, 6, 3)
+	nfl := 6000
+	if thorough {
+		nfl = 150000
+	}
+	flow = nil
+	for i := 0; i < nfl; i++ {
+		n := 4 + i%2
+		var mask uint64
+		d := 2 + r.Intn(n*n/2)
+		for b := 0; b < n*n; b++ {
+			if r.Chance(d, n*n) {
+				mask |= 1 << uint(b)
+			}
+		}
+		sp := graphShuffled(r, n, mask, "flow-style")
+		sp.flow = true
+		flow = append(flow, sp)
+	}
+	process(flow, reps+4, 997)
 
 	// (e) random graphs of 6..40 jobs
 	nbig := 400
